@@ -18,7 +18,8 @@ def _table(text, ncol):
     a = np.array(rows, dtype=float)
     # the table defines a piecewise-linear function of wavelength; a few catalogue files list rows out of order
     order = sorted(range(len(a)), key=lambda i: a[i, 0])
-    _table.last_unsorted = order != list(range(len(a)))
+    # 'unsorted' also covers tables that list a wavelength twice (a step in the data)
+    _table.last_unsorted = order != list(range(len(a))) or len(set(a[:, 0].tolist())) < len(a)
     return a[order]
 
 
